@@ -335,7 +335,7 @@ static int as_write(int j, unsigned salt)
 	return 1;
 }
 
-/* canonical key of the allocator state: the trees of all arenas in address order */
+/* canonical key of the allocator state: the trees of all arenas in address order, and the order in which allocations try them */
 static uint64_t as_state_key(void)
 {
 	uint64_t h = 5381;
@@ -346,6 +346,10 @@ static uint64_t as_state_key(void)
 		for(unsigned k = 0; k < sizeof(b->longest) - 1; ++k)
 			h = (h ^ b->longest[k]) * 1099511628211ULL;
 	}
+#ifdef VERIF_HAVE_BY_AGE
+	for(array_count_t i = 0; i < array_count(m->buddies_by_age); ++i)
+		h = h * 1099511628211ULL + (uint64_t)(array_get_at(m->buddies_by_age, i) - as_pool) + 17;
+#endif
 	return h;
 }
 #endif
